@@ -134,8 +134,17 @@ def check_exact_lifts(ix, rep):
                 ok = 'literal'
             elif len(args) == 1 and _is_unit_entry(args[0]):
                 ok = 'a unit-table entry (a power of ten: `.limit_denominator()` gives it back exactly)'
+            elif len(args) == 1 and isinstance(args[0], ast.Call) and isinstance(args[0].func, ast.Name) and args[0].func.id in ('str', 'repr') and len(args[0].args) == 1:
+                ok = 'lift of the decimal text of the number (0.067 is 67/1000)'
             elif len(args) == 1 and isinstance(args[0], ast.BinOp) and isinstance(args[0].op, ast.Mult) and (_is_unit_entry(args[0].left) or _is_unit_entry(args[0].right)):
-                ok = 'scaled to the base unit before the lift'
+                other = args[0].right if _is_unit_entry(args[0].left) else args[0].left
+                if _mentions_period(other):
+                    # the product is a float product: 0.1 * 1e9 happens to be exact, 0.067 * 1e9 is 67000000.00000001 (row 69)
+                    ok = None
+                    why = 'Fraction(%s) lifts a *float product*: the period 0.067 (s) times 1e9 is 67000000.00000001, so `always[0,134ms]` is "not a multiple of the sampling ' \
+                          'period" with set_sampling_period(0.067, \'s\') and accepted with (67, \'ms\') -- two notations of one duration' % ast.unparse(args[0])
+                else:
+                    ok = 'scaled to the base unit before the lift'
             elif len(args) == 1 and isinstance(args[0], ast.Name) and fn is not None and any(
                     isinstance(st_, ast.Assign) and any(isinstance(t_, ast.Name) and t_.id == args[0].id for t_ in st_.targets) and isinstance(st_.value, ast.Call)
                     and isinstance(st_.value.func, ast.Attribute) and st_.value.func.attr == 'get_sampling_period' for st_ in ast.walk(fn)):
@@ -149,7 +158,7 @@ def check_exact_lifts(ix, rep):
             if why is None:
                 rep.ok('R-EXACT', mod.rel, sym, slot, ok, c.lineno)
             else:
-                rep.fail('R-EXACT', mod.rel, sym, 'lift:period', why, c.lineno)
+                rep.fail('R-EXACT', mod.rel, sym, 'lift:period-product' if 'float product' in why else 'lift:period', why, c.lineno)
     return n
 
 
